@@ -21,7 +21,7 @@ func init() {
 			"Added after blind round 4: the key range handed to the level-1 overlap test is the union of the selected files (decision table of one loop iteration: minimum and maximum updated independently); every sort.Slice comparator indexes the slice being sorted (no parallel key slice). " +
 			"Added after blind round 5: the default executor receives the tombstone tracker after it was defaulted (non-nil by construction).",
 		NotDecided: "equality of merged views for all workloads (values); which selections a workload triggers; the interaction 'log file retired while its data is only in memory' (the code has no notion of flushed-up-to: remark, not verdict).",
-		Rules:      []func(*Ctx, *Reporter){ruleCompactSourceOrder, ruleMergePolicy, ruleCompactDecisionTable, ruleTombstoneFilterTable, ruleInputsOutliveOutputs, ruleOverlapsTable, ruleBuilderStrictOrder, ruleRecencyAtLoad, ruleRetention, ruleUnionRange, ruleSortKeysFromSortedSlice, ruleExecutorGetsTracker},
+		Rules:      []func(*Ctx, *Reporter){ruleCompactSourceOrder, ruleMergePolicy, ruleCompactDecisionTable, ruleTombstoneFilterTable, ruleInputsOutliveOutputs, ruleOverlapsTable, ruleBuilderStrictOrder, ruleRecencyAtLoad, ruleRetention, ruleUnionRange, ruleSortKeysFromSortedSlice, ruleExecutorGetsTracker, ruleSelectionTakesOldest},
 	})
 }
 
